@@ -3,6 +3,7 @@ import collections
 import json
 import os
 import shutil
+import signal
 import tempfile
 import time
 
@@ -457,19 +458,62 @@ class History(object):
         self.leftovers(evs)
 
     # -- disconnect ------------------------------------------------------------------------------------
-    def op_disconnect(self, c):
+    def op_disconnect(self, c, racing_caller=None):
+        """racing_caller: the callee hangs up while a call for it already sits in the bus's socket buffer - the bus is frozen (SIGSTOP),
+        `racing_caller` writes a call addressed to c, c closes, the bus continues and finds both in one main-loop round.  Whichever it
+        handles first, the caller must get exactly one error for that call (NoReply if the call was routed first - its slot is closed by
+        the disconnect -, no-such-name otherwise) and nobody else may see the call."""
         u = c.unique
-        owed, dropped = self.model.disconnect(u)
-        self.step("disconnect %s (owes %d replies, awaits %d)" % (self.lab(u), len(owed), len(dropped)))
+        race = None
+        if racing_caller is not None:
+            by_name = self.rng.random() < 0.5
+            dest = c.tname if by_name and c.tname else u
+            tok = self.token("call")
+            os.kill(self.daemon.pid, signal.SIGSTOP)
+            try:
+                t_pre = time.monotonic()
+                used, data = racing_caller.build(1, path=b"/t", iface=b"com.example.I", member=b"M", dest=dest, sig=b"s", body=[tok])
+                racing_caller.send_msg(data, used)
+                c.close()
+            finally:
+                os.kill(self.daemon.pid, signal.SIGCONT)
+            race = (racing_caller, used, tok, t_pre)
+            self.step("call[into-hangup] %s -> %s (dest %s) serial=%d written, then %s closed, while the bus was stopped"
+                      % (self.lab(racing_caller.unique), self.lab(u), self.lab(dest), used, self.lab(u)))
+            self.part.count("op:call-into-hangup")
         self.clients.remove(c)
         self.departed.append(u)
-        c.close()
+        if race is None:
+            c.close()
         self.part.count("op:disconnect")
         self.phase = "disconnect-notice"
         while True:
             rec = self.obs.recv(timeout=client.WATCHDOG)
             if rec.msg.type == 4 and rec.msg.known().get(3) == b"NameOwnerChanged" and rec.msg.body[:3] == [u, u, b""]:
                 break
+        race_err = None
+        if race is not None:
+            caller, used, tok, t_pre = race
+            self.phase = "error-for-call-into-hangup"
+            # logical, not wall-clock: the caller's round-trip starts after the departure was announced, so whatever the bus
+            # queued for the caller while handling the call and the hang-up has been read when the round-trip completes
+            caller.barrier()
+            rec = None
+            for cand in caller.inbox:
+                if caller._is_reply(cand, used, None):
+                    rec = cand
+                    break
+            if rec is None:
+                self.violation("call-into-hangup:caller-got-nothing", "a call written just before its callee hung up got neither a reply "
+                               "nor an error although the callee's departure was announced and the caller has since completed a "
+                               "round-trip to the bus")
+                race = None
+            else:
+                race_err = rec.msg.known().get(4) if rec.msg.type == 3 else b"?"
+                if race_err == NOREPLY:
+                    self.model.opened(caller.unique, u, used, t_pre, tok)      # routed first: the slot existed until the disconnect
+        owed, dropped = self.model.disconnect(u)
+        self.step("disconnect %s (owes %d replies, awaits %d)" % (self.lab(u), len(owed), len(dropped)))
         for s in dropped:
             if self.by_unique(s.callee) is not None:
                 self.ghost_slots.append((s.caller, s.callee, s.serial))
@@ -482,6 +526,26 @@ class History(object):
             caller.inbox.insert(0, rec)
         self.sync()
         evs = self.absorb()
+        if race is not None:
+            caller, used, tok, t_pre = race
+            seen = [e for e in evs if e.kind == "peer" and e.token == tok]
+            errs = [e for e in evs if e.kind == "buserr" and e.at == caller.unique and e.rs == used]
+            for e in seen:
+                e.used = True
+            if seen:
+                self.violation("call-delivered-to-non-addressee", "a call addressed to the departing %s was delivered to %r"
+                               % (self.lab(u), [self.lab(e.at) for e in seen]))
+            if len(errs) != 1:
+                self.violation("call-into-hangup:answered-%d-times" % len(errs), "the caller got %d errors for one call" % len(errs))
+            short = self.lab(race_err).rsplit(".", 1)[-1]
+            if race_err != NOREPLY:
+                for e in errs:
+                    e.used = True
+                if short not in ("ServiceUnknown", "NameHasNoOwner"):
+                    self.violation("call-into-hangup:refused:%s" % short, "a call to a callee that was hanging up was answered with %s "
+                                   "although the caller was below its limit and the serial was fresh" % short)
+            self.part.count("call-into-hangup:" + short)
+            self.part.sig("call-into-hangup", short, self.mode())
         self.settle(evs, need)
         for (cu, ser), n in need.items():
             if n > 0:
@@ -617,7 +681,11 @@ class History(object):
             elif 0.88 <= r < 0.925:
                 involved = [c for c in self.clients if self.model.slots_of_callee(c.unique) or self.model.slots_of_caller(c.unique)]
                 c = rng.choice(involved) if involved and rng.random() < 0.75 else rng.choice(self.clients)
-                self.op_disconnect(c)
+                racers = [x for x in self.clients if x is not c and self.model.count(x.unique) < (self.limit or 128)]
+                if c.tname and racers and rng.random() < 0.5:
+                    self.op_disconnect(c, racing_caller=rng.choice(racers))
+                else:
+                    self.op_disconnect(c)
                 if len(self.clients) < 3 or rng.random() < 0.5:
                     self.new_client(named=rng.random() < 0.85)
                     self.quiesce()
@@ -731,7 +799,8 @@ def _worker(args):
 REQUIRED = ["reply:genuine:delivered", "reply:duplicate:refused", "reply:wrong-serial:refused", "reply:third-party:refused",
             "reply:to-third-party:refused", "reply:no-reply-call:refused", "reply:refused-call:refused",
             "reply:after-expiry:refused", "reply:to-departed-caller:refused", "noreply:callee-disconnect", "noreply:timeout",
-            "call:refuse:access-denied", "call:refuse:limits-exceeded", "call:deliver", "call:refused-by-policy", "op:race"]
+            "call:refuse:access-denied", "call:refuse:limits-exceeded", "call:deliver", "call:refused-by-policy", "op:race",
+            "op:call-into-hangup"]
 
 
 def run(tier, seed, replay=None, scale=1.0):
@@ -776,6 +845,9 @@ def run(tier, seed, replay=None, scale=1.0):
         "the timeout is judged in one direction only: a NoReply read earlier than reply_timeout after the call was written is premature; "
         "how late the bus may be is bounded only by the 20 s watchdog",
         "a would-be replier's AccessDenied is identified by REPLY_SERIAL = serial of the refused reply",
+        "call-into-hangup: the bus process is stopped (SIGSTOP) while a caller below its limit writes a call with a fresh serial and the "
+        "callee closes, then continued; exactly one error must reach the caller - NoReply (call routed first; the model then opens "
+        "and closes the slot) or ServiceUnknown/NameHasNoOwner (hang-up handled first); which of the two is not judged",
         "hook H1 (FREEDESKTOP_DBUS_VERIF build) dumps the pending-reply list after every dispatch; it is read after a further driver "
         "round-trip; with a finite timeout a model slot absent from the dump is accepted when reply_timeout has elapsed since the "
         "call was written (its NoReply is then judged when read), lateness of the bus is never judged",
